@@ -147,8 +147,14 @@ func OracleC03(tr *Trace) Verdict {
 		// ---- clause 2, absolute form: the store becomes unreachable for this instance for good (or for longer
 		// than the bound): whatever the heartbeat loop does or does not attempt, the claim must be down within
 		// 3H + 3T of the start of the last successful refresh
+		unhealthyTicks := false
+		for _, h := range p.Instances[c.Inst].Health {
+			if h == 1 || h == 3 || h == 5 {
+				unhealthyTicks = true // such ticks make no attempt at all: only the count-based form above applies
+			}
+		}
 		for _, w := range p.Windows {
-			if w.Inst != c.Inst || w.From <= c.FromT || (c.ToSeq >= 0 && w.From >= c.ToT) {
+			if w.Inst != c.Inst || w.From <= c.FromT || (c.ToSeq >= 0 && w.From >= c.ToT) || unhealthyTicks {
 				continue
 			}
 			last := c.FromT
